@@ -1,5 +1,5 @@
 (* PathsFacts.v -- facts about Model/Paths.v (C10). *)
-From Coq Require Import Lia.
+From Coq Require Import Lia Permutation.
 From Ctg Require Import Base Net Paths BaseFacts.
 
 (* ------------------------------------------------------------------ *)
@@ -241,4 +241,372 @@ Proof.
     - apply bisect_left_exact; [exact Hs|lia].
     - apply (IH d Hd). lia. }
   apply (Hall ds (length ids) Hd (le_n _)).
+Qed.
+
+(* ------------------------------------------------------------------ *)
+(* sorting distinct naturals with Base.sort_by Nat.leb *)
+Fixpoint sasc (l : list nat) : Prop :=
+  match l with [] => True | x :: l' => (forall y, In y l' -> x < y) /\ sasc l' end.
+Fixpoint sdesc (l : list nat) : Prop :=
+  match l with [] => True | x :: l' => (forall y, In y l' -> y < x) /\ sdesc l' end.
+
+Lemma insert_leb_perm x l : Permutation (insert_by Nat.leb x l) (x :: l).
+Proof.
+  induction l as [|y l IH]; cbn [insert_by]; [reflexivity|].
+  destruct (Nat.leb y x); [|reflexivity]. rewrite IH. apply perm_swap.
+Qed.
+Lemma fold_insert_leb_perm l : forall acc,
+  Permutation (fold_left (fun acc x => insert_by Nat.leb x acc) l acc) (l ++ acc).
+Proof.
+  induction l as [|x l IH]; intros acc; cbn [fold_left app]; [reflexivity|].
+  rewrite IH, insert_leb_perm. symmetry. apply Permutation_middle.
+Qed.
+Lemma sort_asc_perm l : Permutation (sort_asc l) l.
+Proof. unfold sort_asc, sort_by. rewrite fold_insert_leb_perm, app_nil_r. reflexivity. Qed.
+
+Lemma insert_sasc x l : ~ In x l -> sasc l -> sasc (insert_by Nat.leb x l).
+Proof.
+  induction l as [|y l IH]; cbn [insert_by sasc]; intros Hn Hs.
+  - split; [intros ? []|exact I].
+  - destruct Hs as [Hy Hs]. destruct (Nat.leb_spec y x) as [Hle|Hgt]; cbn [sasc].
+    + assert (y < x) by (destruct (Nat.eq_dec y x) as [->|]; [exfalso; apply Hn; left; reflexivity|lia]).
+      split.
+      * intros z Hz. apply (Permutation_in _ (insert_leb_perm x l)) in Hz. destruct Hz as [<-|Hz]; [assumption|apply Hy, Hz].
+      * apply IH; [intros H'; apply Hn; right; exact H'|exact Hs].
+    + split; [|split; assumption].
+      intros z [<-|Hz]; [exact Hgt|]. specialize (Hy z Hz). lia.
+Qed.
+
+Lemma fold_insert_sasc l : forall acc, NoDup (l ++ acc) -> sasc acc ->
+  sasc (fold_left (fun acc x => insert_by Nat.leb x acc) l acc).
+Proof.
+  induction l as [|x l IH]; intros acc Hnd Hs; cbn [fold_left]; [exact Hs|].
+  cbn [app] in Hnd. inversion Hnd as [|? ? Hnin Hnd']; subst. apply IH.
+  - eapply Permutation_NoDup; [|exact Hnd].
+    cbn [app]. rewrite insert_leb_perm. apply Permutation_middle.
+  - apply insert_sasc; [|exact Hs]. intros H. apply Hnin, in_or_app. right; exact H.
+Qed.
+Lemma sort_asc_sasc l : NoDup l -> sasc (sort_asc l).
+Proof. intros H. unfold sort_asc, sort_by. apply fold_insert_sasc; [rewrite app_nil_r; exact H|exact I]. Qed.
+
+Lemma sasc_unique l1 : forall l2, sasc l1 -> sasc l2 -> (forall x, In x l1 <-> In x l2) -> l1 = l2.
+Proof.
+  induction l1 as [|x l1 IH]; intros [|y l2] H1 H2 Hm.
+  - reflexivity.
+  - exfalso. apply (proj2 (Hm y)). left; reflexivity.
+  - exfalso. apply (proj1 (Hm x)). left; reflexivity.
+  - cbn [sasc] in *. destruct H1 as [Hx H1], H2 as [Hy H2].
+    assert (x = y).
+    { destruct (proj1 (Hm x) (or_introl eq_refl)) as [E|Hin]; [auto|].
+      destruct (proj2 (Hm y) (or_introl eq_refl)) as [E|Hin']; [auto|].
+      specialize (Hy x Hin). specialize (Hx y Hin'). lia. }
+    subst y. f_equal. apply IH; [assumption|assumption|].
+    intros z. split; intros Hz.
+    + destruct (proj1 (Hm z) (or_intror Hz)) as [<-|H]; [specialize (Hx x Hz); lia|exact H].
+    + destruct (proj2 (Hm z) (or_intror Hz)) as [<-|H]; [specialize (Hy x Hz); lia|exact H].
+Qed.
+
+Lemma sort_asc_of_perm l s : NoDup l -> sasc s -> Permutation l s -> sort_asc l = s.
+Proof.
+  intros Hnd Hs HP. apply sasc_unique; [apply sort_asc_sasc, Hnd|exact Hs|].
+  intros x. split; intros H.
+  - eapply Permutation_in; [exact HP|]. eapply Permutation_in; [apply sort_asc_perm|exact H].
+  - eapply Permutation_in; [symmetry; apply sort_asc_perm|]. eapply Permutation_in; [symmetry; exact HP|exact H].
+Qed.
+
+Lemma sdesc_app_last a x : sdesc a -> (forall y, In y a -> x < y) -> sdesc (a ++ [x]).
+Proof.
+  induction a as [|z a IH]; cbn [app sdesc]; intros Hs Hx.
+  - split; [intros ? []|exact I].
+  - destruct Hs as [Hz Hs]. split.
+    + intros y Hy. apply in_app_iff in Hy. destruct Hy as [Hy|[<-|[]]]; [apply Hz, Hy|apply Hx; left; reflexivity].
+    + apply IH; [exact Hs|]. intros y Hy. apply Hx. right; exact Hy.
+Qed.
+Lemma sasc_rev l : sasc l -> sdesc (rev l).
+Proof.
+  induction l as [|x l IH]; cbn [sasc rev]; [trivial|]. intros [Hx Hs].
+  apply sdesc_app_last; [apply IH, Hs|]. intros y Hy. apply Hx. rewrite in_rev. exact Hy.
+Qed.
+Lemma sasc_NoDup l : sasc l -> NoDup l.
+Proof.
+  induction l as [|x l IH]; cbn [sasc]; [constructor|]. intros [Hx Hs]. constructor; [|apply IH, Hs].
+  intros H. specialize (Hx x H). lia.
+Qed.
+
+Lemma sdesc_desc_from ds : forall b, sdesc ds -> (forall d, In d ds -> d < b) -> desc_from b ds.
+Proof.
+  induction ds as [|d ds IH]; intros b Hs Hb; cbn [desc_from]; [exact I|].
+  cbn [sdesc] in Hs. destruct Hs as [Hd Hs]. split; [apply Hb; left; reflexivity|]. apply IH; assumption.
+Qed.
+
+Lemma sort_desc_desc_from con b : NoDup con -> (forall c, In c con -> c < b) -> desc_from b (sort_desc con).
+Proof.
+  intros Hnd Hb. apply sdesc_desc_from.
+  - apply sasc_rev, sort_asc_sasc, Hnd.
+  - intros d Hd. apply Hb. unfold sort_desc in Hd. rewrite <- in_rev in Hd.
+    eapply Permutation_in; [apply sort_asc_perm|exact Hd].
+Qed.
+
+Lemma sort_asc_sort_desc con : NoDup con -> sort_asc (sort_desc con) = sort_asc con.
+Proof.
+  intros Hnd. apply sort_asc_of_perm.
+  - unfold sort_desc. eapply Permutation_NoDup; [apply Permutation_rev|]. apply sasc_NoDup, sort_asc_sasc, Hnd.
+  - apply sort_asc_sasc, Hnd.
+  - unfold sort_desc. symmetry. apply Permutation_rev.
+Qed.
+
+(* ------------------------------------------------------------------ *)
+(* the two converters as plain recursions over the path *)
+Definition pop_read (ds : list nat) (ids : list nat) : list nat * list nat :=
+  fold_left (fun s c => (pop_nth c (fst s), snd s ++ [nth c (fst s) 0])) ds (ids, []).
+Definition pops (ds : list nat) (ids : list nat) : list nat := fold_left (fun l j => pop_nth j l) ds ids.
+
+Fixpoint lin_run (ids : list nat) (ssa : nat) (path : list (list nat)) : list (list nat) :=
+  match path with
+  | [] => []
+  | con :: rest => let r := pop_read (sort_desc con) ids in snd r :: lin_run (fst r ++ [ssa]) (S ssa) rest
+  end.
+Fixpoint ssa_run (ids : list nat) (ssa : nat) (spath : list (list nat)) : list (list nat) :=
+  match spath with
+  | [] => []
+  | scon :: rest => let con := sort_asc (map (bisect_left ids) scon) in
+                    con :: ssa_run (pops (rev con) ids ++ [ssa]) (S ssa) rest
+  end.
+
+Lemma lin_fold path : forall ids ssa acc,
+  snd (fold_left lin_step path (ids, ssa, acc)) = acc ++ lin_run ids ssa path.
+Proof.
+  induction path as [|con path IH]; intros ids ssa acc; cbn [fold_left lin_run]; [rewrite app_nil_r; reflexivity|].
+  unfold lin_step at 2. fold (pop_read (sort_desc con) ids). destruct (pop_read (sort_desc con) ids) as [ids' scon] eqn:E.
+  rewrite IH, <- app_assoc. reflexivity.
+Qed.
+Lemma linear_to_ssa_run path N : linear_to_ssa path N = lin_run (seq 0 N) N path.
+Proof. unfold linear_to_ssa. rewrite lin_fold. reflexivity. Qed.
+
+Lemma ssa_fold spath : forall ids ssa acc,
+  snd (fold_left ssa_step spath (ids, ssa, acc)) = acc ++ ssa_run ids ssa spath.
+Proof.
+  induction spath as [|scon spath IH]; intros ids ssa acc; cbn [fold_left ssa_run]; [rewrite app_nil_r; reflexivity|].
+  unfold ssa_step at 2. rewrite IH, <- app_assoc. reflexivity.
+Qed.
+Lemma ssa_to_linear_run spath N : ssa_to_linear spath N = ssa_run (seq 0 N) N spath.
+Proof. unfold ssa_to_linear. rewrite ssa_fold. reflexivity. Qed.
+
+Lemma pop_read_fst ds : forall ids acc,
+  fst (fold_left (fun s c => (pop_nth c (fst s), snd s ++ [nth c (fst s) 0])) ds (ids, acc)) = pops ds ids.
+Proof.
+  induction ds as [|d ds IH]; intros ids acc; [reflexivity|]. cbn [fold_left fst snd]. unfold pops. cbn [fold_left]. apply IH.
+Qed.
+
+(* ------------------------------------------------------------------ *)
+(* validity of a linear path over m current tensors, and the id-list invariant *)
+Fixpoint valid_lin (m : nat) (path : list (list nat)) : Prop :=
+  match path with
+  | [] => True
+  | con :: rest => con <> [] /\ NoDup con /\ (forall c, In c con -> c < m) /\ valid_lin (m - length con + 1) rest
+  end.
+Definition ids_ok (ids : list nat) (ssa : nat) : Prop :=
+  strictly_increasing ids /\ forall i, i < length ids -> nth i ids 0 < ssa.
+
+Lemma pops_ok ds : forall b ids ssa, desc_from b ds -> b <= length ids -> ids_ok ids ssa ->
+  ids_ok (pops ds ids) ssa /\ length (pops ds ids) = length ids - length ds.
+Proof.
+  induction ds as [|d ds IH]; intros b ids ssa Hd Hb Hok; [cbn; split; [exact Hok|lia]|].
+  cbn [desc_from] in Hd. destruct Hd as [Hdb Hd]. unfold pops. cbn [fold_left]. fold (pops ds (pop_nth d ids)).
+  destruct Hok as [Hs Hlt].
+  assert (Hl : length (pop_nth d ids) = length ids - 1) by (apply length_pop_nth; lia).
+  destruct (IH d (pop_nth d ids) ssa Hd ltac:(lia)) as [A B].
+  - split; [apply pop_strictly_increasing; [exact Hs|lia]|].
+    intros i Hi. rewrite nth_pop_nth. destruct (Nat.ltb i d); apply Hlt; lia.
+  - split; [exact A|]. rewrite B, Hl. cbn [length]. lia.
+Qed.
+
+Lemma ids_ok_append ids ssa : ids_ok ids ssa -> ids_ok (ids ++ [ssa]) (S ssa).
+Proof.
+  intros [Hs Hlt]. split.
+  - apply app_fresh_strictly_increasing; assumption.
+  - intros i Hi. rewrite app_length in Hi. cbn [length] in Hi.
+    destruct (Nat.lt_ge_cases i (length ids)) as [H|H].
+    + rewrite app_nth1 by exact H. specialize (Hlt i H). lia.
+    + replace i with (length ids) by lia. rewrite app_nth2, Nat.sub_diag by lia. cbn. lia.
+Qed.
+
+(* linear_ssa_inverse *)
+Lemma lin_ssa_inverse_gen path : forall ids ssa, ids_ok ids ssa -> valid_lin (length ids) path ->
+  ssa_run ids ssa (lin_run ids ssa path) = map sort_asc path.
+Proof.
+  induction path as [|con path IH]; intros ids ssa Hok Hv; [reflexivity|].
+  cbn [valid_lin] in Hv. destruct Hv as (Hne & Hnd & Hlt & Hv).
+  cbn [lin_run ssa_run map].
+  pose proof (sort_desc_desc_from con (length ids) Hnd Hlt) as Hd.
+  assert (Hrec : map (bisect_left ids) (snd (pop_read (sort_desc con) ids)) = sort_desc con)
+    by (apply step_positions_recovered; [apply Hok|exact Hd]).
+  rewrite Hrec, (sort_asc_sort_desc con Hnd).
+  f_equal.
+  change (rev (sort_asc con)) with (sort_desc con).
+  unfold pop_read at 1. rewrite pop_read_fst.
+  destruct (pops_ok (sort_desc con) (length ids) ids ssa Hd (le_n _) Hok) as [Hok' Hlen].
+  apply IH.
+  - apply ids_ok_append, Hok'.
+  - rewrite app_length, Hlen. cbn [length].
+    assert (length (sort_desc con) = length con).
+    { unfold sort_desc. rewrite rev_length. apply Permutation_length, sort_asc_perm. }
+    replace (length ids - length (sort_desc con) + 1) with (length ids - length con + 1) by lia. exact Hv.
+Qed.
+
+Lemma ids_ok_init N : ids_ok (seq 0 N) N.
+Proof.
+  split; [apply seq_strictly_increasing|]. intros i Hi. rewrite seq_length in Hi. rewrite seq_nth by exact Hi. lia.
+Qed.
+
+Theorem linear_ssa_inverse path N : valid_lin N path ->
+  ssa_to_linear (linear_to_ssa path N) N = map sort_asc path.
+Proof.
+  intros Hv. rewrite linear_to_ssa_run, ssa_to_linear_run. apply lin_ssa_inverse_gen; [apply ids_ok_init|].
+  rewrite seq_length. exact Hv.
+Qed.
+
+Lemma si_NoDup ids : strictly_increasing ids -> NoDup ids.
+Proof.
+  intros Hs. apply (NoDup_nth ids 0). intros i j Hi Hj E.
+  destruct (Nat.lt_trichotomy i j) as [H|[H|H]]; [|exact H|].
+  - pose proof (Hs i j H Hj). lia.
+  - pose proof (Hs j i H Hi). lia.
+Qed.
+
+Lemma in_ids_pos ids s : In s ids -> exists k, k < length ids /\ nth k ids 0 = s.
+Proof. intros H. apply (In_nth ids s 0) in H. exact H. Qed.
+
+Lemma bisect_present ids s : strictly_increasing ids -> In s ids ->
+  bisect_left ids s < length ids /\ nth (bisect_left ids s) ids 0 = s.
+Proof.
+  intros Hs Hin. destruct (in_ids_pos ids s Hin) as (k & Hk & <-).
+  rewrite (bisect_left_exact ids k Hs Hk). auto.
+Qed.
+
+Lemma sasc_map_nth ids l : strictly_increasing ids -> sasc l -> (forall c, In c l -> c < length ids) ->
+  sasc (map (fun c => nth c ids 0) l).
+Proof.
+  intros Hs. induction l as [|x l IH]; cbn [sasc map]; [trivial|]. intros [Hx Hl] Hb. split.
+  - intros y Hy. apply in_map_iff in Hy. destruct Hy as (c & <- & Hc). apply Hs; [apply Hx, Hc|apply Hb; right; exact Hc].
+  - apply IH; [exact Hl|]. intros c Hc. apply Hb. right; exact Hc.
+Qed.
+
+Lemma in_pop_nth d : forall (l : list nat) s, NoDup l -> d < length l ->
+  (In s (pop_nth d l) <-> In s l /\ s <> nth d l 0).
+Proof.
+  induction d as [|d IH]; intros [|x l] s Hnd Hd; cbn [length] in Hd; try lia; inversion Hnd as [|? ? Hnin Hnd']; subst; cbn [pop_nth nth In].
+  - split.
+    + intros H. split; [right; exact H|]. intros ->. contradiction.
+    + intros [[->|H] Hne]; [congruence|exact H].
+  - rewrite (IH l s Hnd' ltac:(lia)). split.
+    + intros [->|[H Hne]]; [split; [left; reflexivity|]|split; [right; exact H|exact Hne]].
+      intros E. apply Hnin. rewrite E. apply nth_In. lia.
+    + intros [[->|H] Hne]; [left; reflexivity|right; split; assumption].
+Qed.
+
+Lemma in_pop_nth_incl {A} d : forall (l : list A) s, In s (pop_nth d l) -> In s l.
+Proof.
+  induction d as [|d IH]; intros [|x l] s H; cbn [pop_nth] in *; auto.
+  - right; exact H.
+  - destruct H as [->|H]; [left; reflexivity|right; apply IH, H].
+Qed.
+Lemma NoDup_pop_nth {A} d : forall (l : list A), NoDup l -> NoDup (pop_nth d l).
+Proof.
+  induction d as [|d IH]; intros [|x l] H; cbn [pop_nth]; try constructor; inversion H; subst; auto.
+  - intros Hin. apply H2. eapply in_pop_nth_incl, Hin.
+Qed.
+
+Lemma in_pops ds : forall b ids s, desc_from b ds -> b <= length ids -> NoDup ids ->
+  (In s (pops ds ids) <-> In s ids /\ ~ In s (map (fun c => nth c ids 0) ds)).
+Proof.
+  induction ds as [|d ds IH]; intros b ids s Hd Hb Hnd; [cbn; tauto|].
+  cbn [desc_from] in Hd. destruct Hd as [Hdb Hd]. unfold pops. cbn [fold_left]. fold (pops ds (pop_nth d ids)).
+  assert (Hl : length (pop_nth d ids) = length ids - 1) by (apply length_pop_nth; lia).
+  assert (Hnd' : NoDup (pop_nth d ids)) by (apply NoDup_pop_nth, Hnd).
+  rewrite (IH d (pop_nth d ids) s Hd ltac:(lia) Hnd'), (in_pop_nth d ids s Hnd ltac:(lia)).
+  assert (Hmap : map (fun c => nth c (pop_nth d ids) 0) ds = map (fun c => nth c ids 0) ds).
+  { clear -Hd. revert d Hd. induction ds as [|c ds IH]; intros d Hd; [reflexivity|]. cbn [desc_from] in Hd. destruct Hd as [Hc Hd].
+    cbn [map]. f_equal.
+    - rewrite nth_pop_nth. destruct (Nat.ltb_spec c d); [reflexivity|lia].
+    - (* remaining positions are < c < d *)
+      clear IH. revert c Hc Hd. induction ds as [|e ds IH2]; intros c Hc Hd; [reflexivity|]. cbn [desc_from] in Hd. destruct Hd as [He Hd].
+      cbn [map]. f_equal; [rewrite nth_pop_nth; destruct (Nat.ltb_spec e d); [reflexivity|lia]|]. apply (IH2 e); [lia|exact Hd]. }
+  rewrite Hmap. cbn [map In]. split; [intros [[A B] C]|intros [A C]].
+  - split; [exact A|]. intros [E|E]; [congruence|contradiction].
+  - split; [split; [exact A|]|]; intros E; apply C; [left; auto|right; exact E].
+Qed.
+
+Lemma NoDup_map_inj_in {A B} (f : A -> B) l :
+  (forall x y, In x l -> In y l -> f x = f y -> x = y) -> NoDup l -> NoDup (map f l).
+Proof.
+  induction l as [|a l IH]; intros Hf H; cbn [map]; [constructor|]. inversion H as [|? ? Hn H']; subst. constructor.
+  - intros Hin. apply in_map_iff in Hin. destruct Hin as (y & E & Hy). apply Hn.
+    rewrite (Hf a y (or_introl eq_refl) (or_intror Hy) (eq_sym E)). exact Hy.
+  - apply IH; [|exact H']. intros x y Hx Hy. apply Hf; right; assumption.
+Qed.
+
+(* validity of an ssa path: every step is non-empty, duplicate-free and only names ids that
+   are alive; the used ids die, the fresh id ssa is born *)
+Fixpoint valid_ssa (live : list nat) (ssa : nat) (spath : list (list nat)) : Prop :=
+  match spath with
+  | [] => True
+  | scon :: rest => scon <> [] /\ NoDup scon /\ (forall s, In s scon -> In s live) /\
+                    valid_ssa (filter (fun x => negb (memb x scon)) live ++ [ssa]) (S ssa) rest
+  end.
+
+Lemma valid_ssa_ext spath : forall l1 l2 ssa, (forall x, In x l1 <-> In x l2) ->
+  valid_ssa l1 ssa spath -> valid_ssa l2 ssa spath.
+Proof.
+  induction spath as [|scon rest IH]; intros l1 l2 ssa Hm; cbn [valid_ssa]; [trivial|].
+  intros (A & B & C & D). repeat split; try assumption.
+  - intros s Hs. apply Hm, C, Hs.
+  - eapply IH; [|exact D]. intros x. rewrite !in_app_iff, !filter_In, Hm. tauto.
+Qed.
+
+Lemma ssa_lin_inverse_gen spath : forall ids ssa, ids_ok ids ssa -> valid_ssa ids ssa spath ->
+  lin_run ids ssa (ssa_run ids ssa spath) = map sort_desc spath.
+Proof.
+  induction spath as [|scon rest IH]; intros ids ssa Hok Hv; [reflexivity|].
+  cbn [valid_ssa] in Hv. destruct Hv as (Hne & Hnd & Hlive & Hv). destruct Hok as [Hs Hlt].
+  cbn [ssa_run lin_run map].
+  set (P := map (bisect_left ids) scon).
+  assert (HP : forall c, In c P -> c < length ids).
+  { intros c Hc. apply in_map_iff in Hc. destruct Hc as (s & <- & Hs'). apply bisect_present; auto. }
+  assert (Hback : map (fun c => nth c ids 0) P = scon).
+  { unfold P. rewrite map_map. rewrite <- (map_id scon) at 2. apply map_ext_in. intros s Hs'. apply bisect_present; auto. }
+  assert (HPnd : NoDup P).
+  { apply NoDup_map_inj_in; [|exact Hnd].
+    intros x y Hx Hy E. rewrite <- (proj2 (bisect_present ids x Hs (Hlive x Hx))), <- (proj2 (bisect_present ids y Hs (Hlive y Hy))), E. reflexivity. }
+  assert (Hsa : sasc (sort_asc P)) by (apply sort_asc_sasc, HPnd).
+  assert (Hidem : sort_asc (sort_asc P) = sort_asc P).
+  { apply sort_asc_of_perm; [apply sasc_NoDup, Hsa|exact Hsa|reflexivity]. }
+  assert (Hsd : sort_desc (sort_asc P) = rev (sort_asc P)) by (unfold sort_desc; rewrite Hidem; reflexivity).
+  assert (Hd : desc_from (length ids) (rev (sort_asc P))).
+  { apply sdesc_desc_from; [apply sasc_rev, Hsa|]. intros d Hd. rewrite <- in_rev in Hd. apply HP.
+    eapply Permutation_in; [apply sort_asc_perm|exact Hd]. }
+  rewrite Hsd. f_equal.
+  - (* the ids read are the step's ids in descending order *)
+    destruct (pop_desc_reads_original (rev (sort_asc P)) (length ids) ids [] Hd (le_n _)) as [E _].
+    unfold pop_read. rewrite E. cbn [app]. rewrite map_rev. unfold sort_desc. f_equal.
+    symmetry. apply sort_asc_of_perm; [exact Hnd| |].
+    + apply sasc_map_nth; [exact Hs|exact Hsa|]. intros c Hc. apply HP. eapply Permutation_in; [apply sort_asc_perm|exact Hc].
+    + rewrite <- Hback at 1. apply Permutation_map. symmetry. apply sort_asc_perm.
+  - unfold pop_read. rewrite pop_read_fst.
+    destruct (pops_ok (rev (sort_asc P)) (length ids) ids ssa Hd (le_n _) (conj Hs Hlt)) as [Hok' Hlen].
+    apply IH; [apply ids_ok_append, Hok'|].
+    eapply valid_ssa_ext; [|exact Hv]. intros x. rewrite !in_app_iff, filter_In.
+    rewrite (in_pops (rev (sort_asc P)) (length ids) ids x Hd (le_n _) (si_NoDup ids Hs)).
+    rewrite map_rev. rewrite <- in_rev.
+    assert (Hmem : In x (map (fun c => nth c ids 0) (sort_asc P)) <-> In x scon).
+    { split; intros H.
+      - rewrite <- Hback. eapply Permutation_in; [|exact H]. apply Permutation_map, sort_asc_perm.
+      - rewrite <- Hback in H. eapply Permutation_in; [|exact H]. apply Permutation_map. symmetry. apply sort_asc_perm. }
+    rewrite Hmem, negb_true_iff, memb_false. tauto.
+Qed.
+
+Theorem ssa_linear_inverse spath N : valid_ssa (seq 0 N) N spath ->
+  linear_to_ssa (ssa_to_linear spath N) N = map sort_desc spath.
+Proof.
+  intros Hv. rewrite linear_to_ssa_run, ssa_to_linear_run. apply ssa_lin_inverse_gen; [apply ids_ok_init|exact Hv].
 Qed.
